@@ -28,9 +28,13 @@ shares with the system it derives from, and which it owns.
 Abstractions, stated once:
 * `variable.entity` is kept as the entity *key*: the engine reads nothing else of it
   (`Simulation.get_variable_population`, `check_variable_defined_for_entity`, `get_variables`).
-* value types, definition periods, defaults and `set_input` helpers are opaque tokens; the
-  `allowed_type` / `allowed_values` checks of `Variable.set` are not modelled (the generated
-  classes are well typed); a declared `end` is a valid date (an ordinal).
+* value types, definition periods, defaults, `set_input` helpers and the descriptive attributes
+  (`label`, `reference`, `documentation`, `unit`, `cerfa_field`, `calculate_output`,
+  `is_period_size_independent`, `max_length`) are opaque tokens: a class carries, for each attribute it
+  declares, the value `Variable.__init__` makes of the declared one (`ClassDef.attrs`); what the model
+  decides is declared / inherited from the baseline variable / default (`attrOf`), and the label of a
+  neutralised variable. The `allowed_type` / `allowed_values` / setter checks of `Variable.set` are one
+  bit: a class that declares a value they refuse is `invalid`, and instantiating it raises.
 * formula start dates and `end` are proleptic ordinals; the code compares zero-padded ISO strings,
   which is the same order (`Lemmas/Calendar.lean`). `formula` (undated) starts at ordinal 1.
 * formula functions are identities `Fml.base n`; the closure `annual_formula` built by
@@ -59,6 +63,14 @@ structure ClassDef where
   endDate   : Option Int
   setInput  : Option String
   formulas  : List (Int × Nat)      -- `formula_YYYY_MM_DD` in class-dict order: start ↦ function
+  /-- the other declared attributes (`label`, `reference`, `documentation`, `unit`, `cerfa_field`,
+      `calculate_output`, `is_period_size_independent`, `max_length`): key ↦ the value `Variable.__init__`
+      makes of the declared one, as an opaque token (`none` = `None`: `label = ""`, `documentation = ""`,
+      a falsy `calculate_output`) -/
+  attrs     : List (String × Option String) := []
+  /-- some declared attribute has a value `Variable.set` refuses (`allowed_type`, `allowed_values`, a
+      setter's own check): `__init__` raises -/
+  invalid   : Bool := false
 deriving DecidableEq, Repr
 
 /-- a `Variable` instance -/
@@ -73,6 +85,8 @@ structure VarObj where
   setInput      : Option String
   formulas      : List (Int × Fml)  -- `SortedDict`: ascending start dates
   isNeutralized : Bool
+  label         : Option String := none             -- `label` (an opaque token; `[Neutralized] …` = `N(…)`)
+  attrs         : List (String × Option String) := []   -- the attributes of `metaKeys`, in that order
 deriving DecidableEq, Repr
 
 /-- what can be observed of a variable object (everything but how it was built) -/
@@ -86,11 +100,16 @@ structure VarView where
   setInput      : Option String
   formulas      : List (Int × Fml)
   isNeutralized : Bool
+  label         : Option String := none
+  attrs         : List (String × Option String) := []
 deriving DecidableEq, Repr
 
 def VarObj.view (v : VarObj) : VarView :=
   ⟨v.cls.name, v.valueType, v.default, v.entity, v.defPeriod, v.endDate, v.setInput, v.formulas,
-   v.isNeutralized⟩
+   v.isNeutralized, v.label, v.attrs⟩
+
+/-- `Variable.is_input_variable()`: `len(self.formulas) == 0` -/
+def VarView.isInput (v : VarView) : Bool := v.formulas.isEmpty
 
 structure SysObj where
   entities : List Oid
@@ -159,6 +178,9 @@ def dictGet {α} (k : String) : List (String × α) → Option α
   | [] => none
   | (k', v') :: r => if k' = k then some v' else dictGet k r
 
+/-- one descriptive attribute of a variable object (`None` when the object does not carry it) -/
+def VarObj.attr (v : VarObj) (k : String) : Option String := (dictGet k v.attrs).join
+
 /-! ## `Variable` -/
 
 /-- `config.VALUE_TYPES[value_type].get("default")` as canonical tokens (`Enum` has none) -/
@@ -211,8 +233,44 @@ def requiredAttr (what : String) (declared : Option String) (inherited : Option 
     | some x => .ok x
     | none => .error ("ValueError: missing attribute " ++ what)
 
-/-- `Variable.__init__(baseline_variable=b)`, `b` already dereferenced -/
-def constructWith (cls : ClassDef) (bid : Option Oid) (b : Option VarObj) : Except String VarObj :=
+/-- the attributes other than `label` that `Variable.__init__` sets through `Variable.set` /
+    `set_calculate_output`, in the order they are observed -/
+def metaKeys : List String :=
+  ["reference", "documentation", "unit", "cerfa_field", "calculate_output", "is_period_size_independent", "max_length"]
+
+/-- `config.VALUE_TYPES[value_type]["is_period_size_independent"]` (tokens of `True` / `False`) -/
+def typeIpsi (vt : String) : String := if vt = "int" then "j66616c7365" else if vt = "float" then "j66616c7365" else "j74727565"
+
+/-- the `default=` of `Variable.set`: only `is_period_size_independent` has one -/
+def attrDefault (k vt : String) : Option String :=
+  if k = "is_period_size_independent" then some (typeIpsi vt) else none
+
+/-- one attribute, as `Variable.set` decides it. `declared`: `none` = the class does not declare it,
+    `some none` = declared and turned into `None` by the setter, `some (some x)` = declared value.
+    `inherited`: `none` = no baseline variable, `some x` = the baseline's attribute.
+    A declared value wins — also a declared `None` (`label = ""` clears the label), except for
+    `calculate_output` (`set_calculate_output`: `if not calculate_output and baseline: inherit`);
+    undeclared, the baseline's value is inherited; without a baseline the default applies. -/
+def attrOf (k vt : String) (declared : Option (Option String)) (inherited : Option (Option String)) :
+    Option String :=
+  match declared with
+  | some (some x) => some x
+  | some none =>
+    if k = "calculate_output" then (match inherited with | some x => x | none => none) else none
+  | none =>
+    match inherited with
+    | some x => x
+    | none => attrDefault k vt
+
+/-- … `max_length` exists on string variables only -/
+def metaAttr (k vt : String) (declared : Option (Option String)) (inherited : Option (Option String)) :
+    Option String :=
+  if k = "max_length" then (if vt = "str" then attrOf k vt declared inherited else none)
+  else attrOf k vt declared inherited
+
+/-- `Variable.__init__(baseline_variable=b)` for a class whose declared values pass the checks of
+    `Variable.set`, `b` already dereferenced -/
+def constructCore (cls : ClassDef) (bid : Option Oid) (b : Option VarObj) : Except String VarObj :=
   match requiredAttr "value_type" cls.valueType (b.map (·.valueType)) with
   | .error e => .error e
   | .ok vt =>
@@ -236,7 +294,15 @@ def constructWith (cls : ClassDef) (bid : Option Oid) (b : Option VarObj) : Exce
   | .ok decl =>
   let fs := match b with | some bv => mergeBaseline decl bv.formulas | none => decl
   .ok { cls := cls, baseline := bid, valueType := vt, default := dflt, entity := ent, defPeriod := dp,
-        endDate := endDate, setInput := si, formulas := fs, isNeutralized := false }
+        endDate := endDate, setInput := si, formulas := fs, isNeutralized := false,
+        label := attrOf "label" vt (dictGet "label" cls.attrs) (b.map (·.label)),
+        attrs := metaKeys.map fun k =>
+          (k, metaAttr k vt (dictGet k cls.attrs) (b.map fun bv => bv.attr k)) }
+
+/-- `Variable.__init__(baseline_variable=b)`: a declared value of the wrong type (`allowed_type`), outside
+    the allowed values, or refused by a setter raises `ValueError` / `TypeError` before anything is bound -/
+def constructWith (cls : ClassDef) (bid : Option Oid) (b : Option VarObj) : Except String VarObj :=
+  if cls.invalid then .error "ValueError: invalid value for an attribute" else constructCore cls bid b
 
 /-- `variable_class(baseline_variable=…)`: the baseline is read through its identity -/
 def construct (h : Heap) (cls : ClassDef) (bid : Option Oid) : Except String VarObj :=
@@ -398,6 +464,10 @@ def replaceVariable (h : Heap) (sid : Oid) (cls : ClassDef) : Heap × Except Str
       | some _ => loadVariable (h.put s.vars (.vmap (dictDel cls.name m))) sid cls false
       | none => loadVariable h sid cls false
 
+/-- the label `get_neutralized_variable` gives the clone: `[Neutralized]`, followed by the label of
+    the variable it neutralises (the instance's, not the class's) when it has one -/
+def neutralizedLabel (l : Option String) : String := "N(" ++ l.getD "-" ++ ")"
+
 /-- `neutralize_variable(name)` -/
 def neutralizeVar (h : Heap) (sid : Oid) (name : String) : Heap × Except String Unit :=
   match h.getSys sid with
@@ -414,7 +484,8 @@ def neutralizeVar (h : Heap) (sid : Oid) (name : String) : Heap × Except String
         | some v =>
           match cloneVar h v with
           | .error e => (h, .error e)
-          | .ok c => (bindVar h s m name { c with isNeutralized := true }, .ok ())
+          | .ok c => (bindVar h s m name { c with isNeutralized := true,
+                                                   label := some (neutralizedLabel v.label) }, .ok ())
 
 /-- `annualize_variable(name)` (repaired, F-C14d: the neutralised flag is carried over) -/
 def annualizeVar (h : Heap) (sid : Oid) (name : String) : Heap × Except String Unit :=
